@@ -54,6 +54,9 @@ TARGETS = [
     ("policy.set_seed_policy", "crates/radicle/src/node/policy/store.rs", "set_seed_policy", "INSERT"),
     ("policy.unfollow", "crates/radicle/src/node/policy/store.rs", "unfollow", "DELETE"),
     ("policy.unseed", "crates/radicle/src/node/policy/store.rs", "unseed", "DELETE"),
+    ("policy.unblock_rid", "crates/radicle/src/node/policy/store.rs", "unblock_rid", "DELETE"),
+    ("policy.unblock_nid", "crates/radicle/src/node/policy/store.rs", "unblock_nid", "DELETE"),
+    ("routing.remove_inventories", "crates/radicle/src/node/routing.rs", "remove_inventories", "DELETE"),
     ("gossip.announced", "crates/radicle-node/src/service/gossip/store.rs", "announced", "INSERT"),
     ("gossip.prune", "crates/radicle-node/src/service/gossip/store.rs", "prune", "DELETE"),
 ]
@@ -578,6 +581,12 @@ def goals(op, e):
     elif op in ("policy.unfollow", "policy.unseed"):
         G += [("removes exactly the addressed entry", "(= post_exists (and pre_exists (not (= pre_id p1))))"),
               ("removal is reported", "(=> (and pre_exists (= pre_id p1)) changed)")]
+    elif op in ("policy.unblock_rid", "policy.unblock_nid"):
+        blk = smt_int(e.strid("block"))
+        G += [("unblock removes exactly the addressed entry and only when its policy is 'block'", f"(= post_exists (and pre_exists (not (and (= pre_id p1) (= pre_policy {blk})))))"),
+              ("an entry that is kept is unchanged", "(=> post_exists (and (= post_policy pre_policy) (= post_id pre_id)))")]
+    elif op == "routing.remove_inventories":
+        G += [("removes exactly the addressed entry", "(= post_exists (and pre_exists (not (and (= pre_repo p1) (= pre_node p2)))))")]
     elif op == "gossip.announced":
         ts, msg, sig = P("timestamp"), P("message"), P("signature")
         newer = f"(> {ts} pre_timestamp)"
